@@ -26,10 +26,20 @@ def build_op(spec):
             out = out + o
         return out
     kind = spec["kind"]
+    late = spec.get("late")       # the operation is built with OTHER settings, used once, and then re-tuned through its public attributes
     if kind in ("ball", "sphere", "box"):
+        if late:
+            op = OPS[kind](spec["step"] * 3.0 + 0.5)
+            op.step_size = spec["step"]
+            return op
         return OPS[kind](spec["step"])
     if kind in ("iso", "aniso", "shape"):
         mask = None if spec.get("mask") is None else np.array(spec["mask"], dtype=bool)
+        if late:
+            op = OPS[kind](spec["max_value"] * 2.0 + 0.01, None if mask is None else ~mask)
+            op.max_value = spec["max_value"]
+            op.mask = np.ones((3, 3), dtype=bool) if mask is None else mask
+            return op
         return OPS[kind](spec["max_value"], mask)
     return OPS[kind]()
 
